@@ -213,12 +213,131 @@ def one_case(ctx, drv):
         trees.rmtree(root)
 
 
+def path_case(ctx, drv, judge_internal=False, label='update-entry-for-path'):
+    """ManifestRecursiveLoader.update_entry_for_path(path, new_entry_type, hashes) + save_manifests: the single-path update of
+    the library API, on a path listed once, several times (in one Manifest and across Manifests), listed but gone, or not
+    listed yet; DIST / IGNORE / TIMESTAMP lines and entries of other paths all around the duplicates"""
+    rng = ctx.rng
+    root = common.scratch_dir('gv.c10p.')
+    try:
+        pl = gen_tree.gen_plan(rng, depth=rng.choice([1, 2, 3]), hostile=rng.random() < 0.3, max_files=4)
+        pl.no_conflicts = True
+        gen_tree.layout(pl, rng, p_dup=0.3, p_second=0.0, p_ignore=0.05)
+        cands = [(mp, e) for mp, es in sorted(pl.manifests.items()) for e in es
+                 if e['tag'] in ('DATA', 'MISC', 'EBUILD') and not e.get('dup') and not gen_tree.is_hidden_path(e['target'])]
+        kind = rng.choice(['listed', 'listed', 'listed-many', 'listed-many', 'listed-many-gone', 'listed-gone', 'unlisted', 'unlisted-gone'])
+        if not cands and kind.startswith('listed'):
+            kind = 'unlisted'
+        target = None
+        if kind.startswith('listed'):
+            mp, e = rng.choice(cands)
+            target = e['target']
+            if 'many' in kind:
+                for _ in range(rng.randint(1, 3)):
+                    e2 = dict(e, dup=rng.choice(['same', 'same', 'other-hashes']))
+                    if e2['dup'] == 'other-hashes':
+                        e2['hashes'] = rng.choice(gen_tree.HASHSETS)
+                    pl.manifests[mp].insert(rng.randint(0, len(pl.manifests[mp])), e2)
+            # lines that are not the path's all around (what an off-by-one in the removal would hit)
+            for _ in range(rng.randint(0, 3)):
+                pl.manifests[mp].insert(rng.randint(0, len(pl.manifests[mp])),
+                                        {'tag': 'DIST', 'path': 'd%d.tar' % rng.randint(0, 99), 'size': rng.randint(0, 9), 'cks': {'MD5': 'aa'}})
+        gen_tree.write_plan(pl, root)
+        if kind.startswith('unlisted'):
+            dirs = sorted(d for d in pl.dirs | {''} if os.path.isdir(os.path.join(root, d)) and not gen_tree.is_hidden_path(d)
+                          and not any(d == i or d.startswith(i + '/') for i in pl.ignored))
+            d = rng.choice(dirs)
+            target = os.path.join(d, 'fresh-%d' % rng.randint(0, 9)) if d else 'fresh-%d' % rng.randint(0, 9)
+            if kind == 'unlisted' and not os.path.lexists(os.path.join(root, target)):
+                open(os.path.join(root, target), 'wb').write(b'fresh content')
+        elif kind.endswith('gone'):
+            if os.path.isfile(os.path.join(root, target)):
+                os.unlink(os.path.join(root, target))
+        elif rng.random() < 0.7 and os.path.isfile(os.path.join(root, target)):
+            open(os.path.join(root, target), 'ab').write(b'+edited')
+        if any(target == i or target.startswith(i + '/') for i in pl.ignored):
+            ctx.count(label + ':skipped (the path is covered by IGNORE: outside the API contract)')
+            return
+        lhashes = rng.choice(c03.HASHSETS)
+        ehashes = rng.choice([None, None, ['SHA1'], ['MD5', 'SHA256']])
+        new_type = rng.choice(['DATA', 'DATA', 'MISC', 'EBUILD'])
+        o = {'hashes': lhashes}
+        texts = all_texts(root)
+        eff_h = ehashes if ehashes is not None else lhashes
+        world = trees.world_of(root, set(lhashes) | set(eff_h) | set(trees.hash_names_in(texts)))
+        before = updimpl.snapshot(root)
+        lines_before = manifest_lines(root)
+        eff = {}
+        try:
+            with treeimpl.time_limit(10):
+                l = updimpl.make_loader(root, pl.top, o)
+                eff = {'hashes': l.hashes, 'sort': bool(l.sort), 'watermark': l.compress_watermark, 'format': l.compress_format}
+                l.update_entry_for_path(target, new_entry_type=new_type, hashes=ehashes)
+                l.save_manifests()
+                impl = {'ok': True, 'top': l.top_level_manifest_filename}
+        except Exception as e:
+            impl = treeimpl.classify(e)
+        after = updimpl.snapshot(root)
+        names = set(lhashes) | set(eff_h)
+        post = updimpl.post_table(root, sorted(names | set(trees.hash_names_in(all_texts(root)))))
+        req = {'op': 'update_path', 'world': world, 'top': cps(pl.top), 'path': cps(target), 'create': False, 'xdev': True,
+               'hashes': [cps(h) for h in lhashes], 'profile': 'default', 'last_mtime': None,
+               'save': {'force': False, 'sort': False, 'watermark': None, 'format': cps('gz')}, 'post': post, 'do_save': True,
+               'new_type': new_type, 'entry_hashes': [cps(h) for h in eff_h]}
+        model = drv.ask(req)['model']
+        scen = {'op': 'update_entry_for_path', 'request': req, 'path': target, 'kind': kind, 'new_type': new_type,
+                'entry_hashes': ehashes, 'loader_hashes': lhashes}
+        ctx.count('stream:' + label)
+        ctx.count(label + ':' + kind)
+        ctx.count(label + ':impl:' + ('ok' if 'ok' in impl else impl['err']))
+        ctx.case(json.dumps(req, sort_keys=True)[:100000], True, {'path': target, 'kind': kind, 'impl': impl})
+        if model.get('err') != 'abstain':
+            c03.compare_with_disk(ctx, scen, root, before, after, model, impl)
+        if treeimpl.is_internal(impl):
+            if judge_internal:
+                ctx.fail('internal-error', scen, impl['err'])
+            else:
+                ctx.count('internal-error(out of scope here, see C18)')
+        changed = sorted(p for p in set(before) | set(after) if before.get(p) != after.get(p))
+        foreign = [p for p in changed if not os.path.basename(p).startswith('Manifest')]
+        if foreign:
+            ctx.fail('non-manifest-file-touched', scen, str(foreign))
+        if 'ok' not in impl:
+            if changed and not treeimpl.is_internal(impl):
+                ctx.fail('failed-update-wrote-something', scen, str(changed))
+            return
+        # preserved: DIST / TIMESTAMP / IGNORE lines, and every entry of every OTHER path, line for line (MANIFEST entries on
+        # the chain above the path excepted)
+        lines_after = manifest_lines(root)
+        for mp, (keep, tags, lines, ign) in lines_before.items():
+            if mp not in lines_after:
+                ctx.fail('manifest-file-removed', dict(scen, manifest=mp), mp)
+                continue
+            keep2, tags2, lines2, ign2 = lines_after[mp]
+            if keep != keep2:
+                ctx.fail('dist-timestamp-entries-changed', dict(scen, manifest=mp), f'{keep} -> {keep2}')
+            if ign != ign2:
+                ctx.fail('ignore-entries-lost', dict(scen, manifest=mp), f'{ign} -> {ign2}')
+            other = sorted(ln for full, tag, ln in lines if full != os.path.normpath(target) and tag != 'MANIFEST')
+            other2 = sorted(ln for full, tag, ln in lines2 if full != os.path.normpath(target) and tag != 'MANIFEST')
+            if other != other2:
+                ctx.fail('out-of-scope-entry-changed', dict(scen, manifest=mp), str(sorted(set(other) ^ set(other2)))[:300])
+        # the path itself: one exact entry when the file is there, none when it is gone (C03's statement for one path)
+        problems, _ = updimpl.exact_check(root, impl['top'], os.path.dirname(target), eff_h)
+        mine = [q for q in problems if q.split(':', 1)[1].split(':')[0].split(' in ')[0] == target]
+        if mine:
+            ctx.fail('path-not-exact-after-update', scen, '; '.join(mine[:4]))
+    finally:
+        trees.rmtree(root)
+
+
 def run(ctx):
     ctx.rule = ('sequences of 2-5 operations (verify, lookups, update without save, update+save whole tree / sub-directory, update '
                 'failing part-way on a FIFO) on generated trees with prior Manifest states; around every operation a content+mtime '
                 'snapshot of every file. Oracle: only Manifest files change, nothing changes without a save or when the update fails, '
                 'DIST/IGNORE/TIMESTAMP entries, entry types and out-of-scope entries are preserved; correspondence with the model '
-                'for update+save (every written byte).')
+                'for update+save (every written byte). Single-path updates (update_entry_for_path + save) on paths listed once / '
+                'several times / listed but gone / not listed: same oracle, every line of every other path kept, the path itself exact.')
     ctx.assumptions = ['"nothing else on disk changes" is observed through snapshots of the scratch tree']
     drv = common.Driver()
     try:
@@ -226,6 +345,8 @@ def run(ctx):
             one_case(ctx, drv)
         for i in range(300 if ctx.tier == 'quick' else 3000):
             twin_case(ctx, drv)
+        for i in range(500 if ctx.tier == 'quick' else 5000):
+            path_case(ctx, drv)
     finally:
         drv.close()
 
